@@ -2724,8 +2724,8 @@ class AllConnGraph(nx.DiGraph):
         shape = parent_meta.shape
 
         if not (src_indices is None or shape is None):
-            if src_indices._src_shape is None:
-                src_indices.set_src_shape(shape)
+            # the shape of the source may have changed since an earlier setup
+            src_indices.set_src_shape(shape)
             shape = src_indices.indexed_src_shape
             if val is not None:
                 val = src_indices.indexed_val(np.atleast_1d(val))
@@ -2781,8 +2781,8 @@ class AllConnGraph(nx.DiGraph):
             tgt_shape = tgt_meta.shape
 
             if src_indices is not None and src_shape is not None:
-                if src_indices._src_shape is None:
-                    src_indices.set_src_shape(src_shape)
+                # the shape of the source may have changed since an earlier setup
+                src_indices.set_src_shape(src_shape)
                 src_shape = src_indices.indexed_src_shape
                 if src_val is not None:
                     src_val = src_indices.indexed_val(np.atleast_1d(src_val))
